@@ -1,6 +1,7 @@
 //! polkit: typed IR of the policy language, printer, reference evaluator, generators and the
 //! monitoring `MachineIO` used by the policy-toolchain monitors (C22-C24, C28-C30).
 pub mod bombs;
+pub mod cmdgen;
 pub mod eval;
 pub mod r#gen;
 pub mod io;
